@@ -5,9 +5,10 @@ import SafeC.Models.Sort
 `PV.bit p i` = bit `i` of `p[1]:p[0]`; `shl`/`shr` (with the x86 count masking, including the `n = 64` case
 where `64 - n1` is executed as a shift by 0), `|= 1`, `^= 7`, `& 3`, `= {1,0}` and `pntz` in terms of it.
 
-`pntz_spec64` carries `t ≠ 64`: for `p[0] = 1`, `p[1]` odd the code computes `r = 64 + 0` and takes it for
-"nothing found" (`pntz_at64`: the result is 0, not 64); `pntz_spec64_unrestricted_false` is the refutation
-of the statement without that hypothesis.
+`pntz_spec64` (whole-word `ntz` and the repaired `pntz`, `Fixes.pntzGap`): `pntz` = distance to the next set bit, for every
+distance.  Without the `pntz` repair (`pntz_spec64_partial`) the statement carries `t ≠ 64`: for `p[0] = 1`, `p[1]` odd the
+code computes `r = 64 + 0` and takes it for "nothing found" (`pntz_at64`: the result is 0, not 64);
+`pntz_spec64_unrestricted_false` is the refutation of the statement without that hypothesis for that code.
 -/
 namespace SafeC.Sort
 
@@ -323,9 +324,9 @@ theorem ctz64_hi {p : PV} {t : Nat} (ht64 : 64 ≤ t) (hb : p.bit t = true)
     unfold PV.bit at this
     rwa [if_neg (by omega), Nat.add_sub_cancel] at this
 
-/-- `pntz` = distance from bit 0 to the next set bit (repaired `ntz`: whole 64-bit word, 0 for 0);
-    NOT for `t = 64`: see `pntz_at64` -/
-theorem pntz_spec64 (fx : Fixes) (hfx : fx.ctz64 = true) (p : PV) (t : Nat) (h0 : p.bit 0 = true)
+/-- `pntz` = distance from bit 0 to the next set bit (repaired `ntz`: whole 64-bit word, 0 for 0), with or without the
+    `pntz` repair; NOT for `t = 64` when `pntzGap = false`: see `pntz_at64` -/
+theorem pntz_spec64_partial (fx : Fixes) (hfx : fx.ctz64 = true) (p : PV) (t : Nat) (h0 : p.bit 0 = true)
     (ht : 0 < t) (h64 : t ≠ 64) (hb : p.bit t = true)
     (hmin : ∀ j, 0 < j → j < t → p.bit j = false) : pntz fx p = t := by
   unfold pntz
@@ -338,12 +339,59 @@ theorem pntz_spec64 (fx : Fixes) (hfx : fx.ctz64 = true) (p : PV) (t : Nat) (h0 
       rw [hz]; unfold ntz; rw [hfx, if_pos rfl]; rfl
     have e2 : ntz fx p.hi = t - 64 := by
       unfold ntz; rw [hfx, if_pos rfl]; exact hh
+    have hne : p.hi ≠ 0 := by
+      apply ne_zero_of_tb (j := t - 64)
+      unfold PV.bit at hb
+      rwa [if_neg (by omega)] at hb
     simp only [e1, e2]
-    rw [if_neg (by omega), if_pos (by omega)]
-    omega
+    rw [if_neg (by omega)]
+    cases fx.pntzGap with
+    | true => rw [if_pos rfl, if_pos hne]; omega
+    | false => rw [if_neg (by decide), if_pos (by omega)]; omega
 
-/-- the next set bit exactly 64 away (`p[0] = 1`, `p[1]` odd): `r = 64 + 0` is taken for "nothing found" -/
-theorem pntz_at64 (fx : Fixes) (hfx : fx.ctz64 = true) (p : PV) (h0 : p.bit 0 = true)
+/-- repaired `pntz` (`p[1] != 0` tested itself) and repaired `ntz`: `pntz` = distance from bit 0 to the next set bit of the
+    two-word vector, for EVERY distance (1 … 127; a set bit `t` has `t < 128`) -/
+theorem pntz_spec64 (fx : Fixes) (hfx : fx.ctz64 = true) (hgap : fx.pntzGap = true) (p : PV) (t : Nat) (h0 : p.bit 0 = true)
+    (ht : 0 < t) (hb : p.bit t = true)
+    (hmin : ∀ j, 0 < j → j < t → p.bit j = false) : pntz fx p = t := by
+  by_cases h64 : t = 64
+  · subst h64
+    have hz := lo_pred_eq_zero h0 (Nat.le_refl 64) hmin
+    have hh := ctz64_hi (Nat.le_refl 64) hb hmin
+    have e1 : ntz fx (p.lo - 1) = 0 := by
+      rw [hz]; unfold ntz; rw [hfx, if_pos rfl]; rfl
+    have e2 : ntz fx p.hi = 0 := by
+      unfold ntz; rw [hfx, if_pos rfl]; exact hh
+    have hne : p.hi ≠ 0 := by
+      apply ne_zero_of_tb (j := 0)
+      unfold PV.bit at hb
+      rwa [if_neg (by omega)] at hb
+    unfold pntz
+    simp only [e1, e2]
+    rw [if_neg (by omega), hgap, if_pos rfl, if_pos hne]
+  · exact pntz_spec64_partial fx hfx p t h0 ht h64 hb hmin
+
+/-- no other set bit at all: `pntz` answers 0 (repaired `ntz`, either `pntz`) -/
+theorem pntz_none (fx : Fixes) (hfx : fx.ctz64 = true) (p : PV) (h0 : p.bit 0 = true)
+    (hmin : ∀ j, 0 < j → p.bit j = false) : pntz fx p = 0 := by
+  have hz := lo_pred_eq_zero (t := 64) h0 (Nat.le_refl 64) (fun j hj _ => hmin j hj)
+  have hhi : p.hi = 0 := by
+    apply eq_zero_of_tb
+    intro j hj
+    have := hmin (j + 64) (by omega)
+    unfold PV.bit at this
+    rwa [if_neg (by omega), Nat.add_sub_cancel] at this
+  have e1 : ntz fx (p.lo - 1) = 0 := by
+    rw [hz]; unfold ntz; rw [hfx, if_pos rfl]; rfl
+  have e2 : ntz fx (0 : UInt64) = 0 := by
+    unfold ntz; rw [hfx, if_pos rfl]; rfl
+  unfold pntz
+  simp only [e1, hhi, e2]
+  cases fx.pntzGap <;> rfl
+
+/-- WITHOUT the `pntz` repair, the next set bit exactly 64 away (`p[0] = 1`, `p[1]` odd): `r = 64 + 0` is taken for
+    "nothing found" -/
+theorem pntz_at64 (fx : Fixes) (hfx : fx.ctz64 = true) (hgap : fx.pntzGap = false) (p : PV) (h0 : p.bit 0 = true)
     (hb : p.bit 64 = true) (hmin : ∀ j, 0 < j → j < 64 → p.bit j = false) : pntz fx p = 0 := by
   unfold pntz
   have hz := lo_pred_eq_zero h0 (Nat.le_refl 64) hmin
@@ -352,10 +400,10 @@ theorem pntz_at64 (fx : Fixes) (hfx : fx.ctz64 = true) (p : PV) (h0 : p.bit 0 = 
     rw [hz]; unfold ntz; rw [hfx, if_pos rfl]; rfl
   have e2 : ntz fx p.hi = 0 := by
     unfold ntz; rw [hfx, if_pos rfl]; exact hh
-  simp only [e1, e2]
+  simp only [e1, e2, hgap]
   rfl
 
-/-- the statement without `t ≠ 64` does not hold of the code: `p = {1, 1}` -/
+/-- the statement without `t ≠ 64` does not hold of the code without the `pntz` repair: `p = {1, 1}` -/
 theorem pntz_spec64_unrestricted_false :
     ¬ (∀ (fx : Fixes) (_ : fx.ctz64 = true) (p : PV) (t : Nat) (_ : p.bit 0 = true) (_ : 0 < t)
         (_ : p.bit t = true) (_ : ∀ j, 0 < j → j < t → p.bit j = false), pntz fx p = t) := by
@@ -366,8 +414,8 @@ theorem pntz_spec64_unrestricted_false :
     intro j hj0 hj
     unfold PV.bit
     rw [if_pos hj, show (1 : UInt64).toNat = 1 from rfl, tb_one, decide_eq_false (by omega : ¬ j = 0)]
-  have h1 := h allFixed rfl ⟨1, 1⟩ 64 hb0 (by decide) hb64 hmin
-  have h2 := pntz_at64 allFixed rfl ⟨1, 1⟩ hb0 hb64 hmin
+  have h1 := h ntzOvfFixed rfl ⟨1, 1⟩ 64 hb0 (by decide) hb64 hmin
+  have h2 := pntz_at64 ntzOvfFixed rfl rfl ⟨1, 1⟩ hb0 hb64 hmin
   omega
 
 theorem ctz32_spec {x : UInt64} {t : Nat} (ht : t < 32) (hb : x.toNat.testBit t = true)
